@@ -9,7 +9,7 @@ RULE = ("generated schemas (objects, interfaces incl. interface-implements-inter
         "documents valid by construction (nested selections, aliases, arguments of every input type as literals and "
         "variables, named and inline fragments on abstract types, overlapping mergeable fields through several fragment "
         "paths, @skip/@include, custom directives, variable defaults, queries/mutations/subscriptions, introspection) and "
-        "the same with ONE rule-targeted mutation (34 operators) in the reachable part; plus a stream of fragment-free "
+        "the same with ONE rule-targeted mutation (36 operators) in the reachable part; plus a stream of fragment-free "
         "documents with repeated fields for the merge model; for every document Go's normalised form is also fed to the "
         "FieldSelectionMerging rule alone and compared with its model. A case is distinct by the hash of its line and "
         "non-trivial when the document contains a fragment on an abstract type or a variable, or is a mutant (merge "
